@@ -38,9 +38,10 @@ def fbool(value):
 
 def fboolorfloat(value):
     """Bool or float"""
-    if isinstance(value, (str, bool)) or value == 0:
+    if isinstance(value, (str, bool, np.bool_)) or value == 0:
         return fbool(value)
-    elif isinstance(value, (int, float)):
+    elif isinstance(value, (int, float, np.integer, np.floating)):
+        # numpy scalars are what HDF5 attributes return
         return float(value)
     else:
         raise ValueError(f"Value could not be converted to bool "
